@@ -30,14 +30,14 @@ def run(chk):
         "explicit BoostMatrix route is exercised numerically by the harness and proved in C08",
     ]
     standard_flow(chk, "symgen_C19_all.py", ["Gen_C19.v", "Gen_C19_dpd.v"],
-                  ["C19_lemmas.v", "C19_lemmas2.v", "C19_lemmas3.v"], "C19.v",
-                  "search_C19.py", 90, 1500,
+                  ["C19_lemmas3.v", "C19_lemmas.v", "C19_lemmas2.v"], "C19.v",
+                  "search_C19.py", 90, 1200,
                   "exact-rational three-body events in the parent rest frame (interior, 1e-3..1e-12 from the "
                   "collinear boundary, soft corner, one/two/three massless, two/three equal masses, random rational "
                   "rotations and label permutations); every non-raising index tuple of the three builders is "
                   "evaluated along route A (doit, then 80-digit mpmath and float64), route B (particle masses substituted before doit) and route C (whole event substituted before doit) and compared with an independent four-momentum evaluator; plus "
                   "the raise-set over all 16+16+64 tuples, DalitzPlotDecomposition models for 2 corpus reactions "
-                  "x 3 reference subsystems (definitions) and 42 (quick) / ~300 (thorough) models over thinnings x builder "
+                  "x 3 reference subsystems (definitions) and 42 (quick) / ~160 (thorough) models over thinnings x builder "
                   "options evaluated on events; distinct = distinct generated cases",
                   coq_timeout=900, search_timeout=1700)
 
